@@ -36,26 +36,25 @@ Definition wire_prefix (do_auth : bool) (a : akey) (cs0 : cstate) : option (csta
     if negb (s =? st_ok) then None else Some (cs', ks)
   else Some (cs0, []).
 
-(* RFC 6904: the elements of the header extension whose id is in ids are xored with the
-   keystream of the header-extension cipher; None = parse error *)
+(* RFC 6904 on a block q whose extension header is at off: the elements whose id is in ids
+   are xored with the keystream of the header-extension cipher; None = parse error *)
+Definition xtn_apply (ids : bytes) (xcs : cstate) (off : Z) (q : bytes) : option bytes :=
+  let profile := be16 q (zn off) in
+  let n := be16 q (zn (off + 2)) * 4 in
+  if negb (profile =? xtn_hdr_one_byte_profile_c) && negb (Z.land profile 65520 =? xtn_hdr_two_byte_profile_c)
+  then None
+  else
+    let d := slice (zn (off + 4)) (zn n) q in
+    match (if profile =? xtn_hdr_one_byte_profile_c
+           then xtn_one (S (length d)) ids xcs d 0
+           else xtn_two (S (length d)) ids xcs d 0) with
+    | Some d' => Some (splice (zn (off + 4)) d' q)
+    | None => None
+    end.
+
 Definition wire_xtn (ids : bytes) (xk : option ckey) (iv : bytes) (pkt : bytes) : option bytes :=
   match xk with
-  | Some xk =>
-    if hdr_x pkt =? 1 then
-      let off := hdr_len pkt in
-      let profile := be16 pkt (zn off) in
-      let n := be16 pkt (zn (off + 2)) * 4 in
-      if negb (profile =? xtn_hdr_one_byte_profile_c) && negb (Z.land profile 65520 =? xtn_hdr_two_byte_profile_c)
-      then None
-      else
-        let d := slice (zn (off + 4)) (zn n) pkt in
-        match (if profile =? xtn_hdr_one_byte_profile_c
-               then xtn_one (S (length d)) ids (cipher_start xk iv) d 0
-               else xtn_two (S (length d)) ids (cipher_start xk iv) d 0) with
-        | Some d' => Some (splice (zn (off + 4)) d' pkt)
-        | None => None
-        end
-    else Some pkt
+  | Some xk => if hdr_x pkt =? 1 then xtn_apply ids (cipher_start xk iv) (hdr_len pkt) pkt else Some pkt
   | None => Some pkt
   end.
 
